@@ -70,7 +70,8 @@ static double tol_of(int prec) { return prec >= 1000 ? 1e-12 : prec >= 16 ? 1e-1
 
 static bool same_bits(zc a, zc b)
 {
-    auto eq = [](double x, double y) { return (x != x && y != y) || (x == y && std::signbit(x) == std::signbit(y)); };
+    // (the sign of a zero is not part of "the same value": the loaders build a + I*b, which turns -0 into +0)
+    auto eq = [](double x, double y) { return (x != x && y != y) || x == y; };
     return eq(a.real(), b.real()) && eq(a.imag(), b.imag());
 }
 static bool near_real(double got, double want, double rel, double scale)
@@ -300,6 +301,13 @@ bool array_file_op(Ctx &c, const Op &op, int oi, vnadata_t **obj, ArrayModel *mo
 	LIB_RETRY(c, &op, "vnadata_set_format", e, rc != 0, rc = vnadata_set_format(v, null ? nullptr : text.c_str()));
 	c.log(" set_format(%s) -> %d", null ? "NULL" : text.c_str(), rc);
 	if (c.violated) return true;
+	if (valid && rc != 0 && c.no_retry && sim_alloc_fault_fired()) {
+	    // failed for lack of memory and not re-issued: nothing may have changed, and the object is used on
+	    if (e != ENOMEM) { c.violate("model", "fmt:errno", strf("set_format failed under an injected allocation failure with errno %s", errno_name(e))); return true; }
+	    c.count("probe.failed_by_fault_not_reissued");
+	    compare(oi, "set_format that failed for lack of memory");
+	    return true;
+	}
 	if (valid && rc != 0) { c.violate("model", "fmt:rc", strf("set_format(\"%s\") failed (errno %s)", text.c_str(), errno_name(e))); return true; }
 	if (!valid) {
 	    if (rc == 0) { c.violate("model", "fmt:rc", strf("set_format(\"%s\") accepted an invalid specifier list", text.c_str())); return true; }
@@ -518,8 +526,8 @@ bool array_file_op(Ctx &c, const Op &op, int oi, vnadata_t **obj, ArrayModel *mo
 			double atol = sf.dprec >= 1000 ? 1e-9 : std::max(1e-9, 0.6 * pow(10.0, 3 - std::max(sf.dprec, 3)));
 			if (cond > 1e3) { c.count("probe.ts1_normalised_skipped_illconditioned"); continue; }
 			double rel = 2.5 * dtol + 2e-13 * cond * cond + (best_form ? atol * M_PI / 180 : 0);
-			if (best_form == 2) rel += 0.12 * dtol * fabs(20 * log10(std::abs(want)));
-			ok = std::abs(got - want) <= rel * std::abs(want) + 1e-11 * nscale;
+			if (best_form == 2 && std::abs(want) > 0) rel += 0.12 * dtol * fabs(20 * log10(std::abs(want)));
+			ok = std::abs(got - want) <= rel * std::abs(want) + (1e-11 + 1e-13 * cond * cond) * std::max(nscale, 1.0);
 		    }
 		    if (!ok) { bad(strf("f=%d cell %d = %s, saved %s (stored in form %d)%s", f, q, hexz(got).c_str(), hexz(want).c_str(), best_form, exact ? ": must be bit-exact at maximum precision" : "")); break; }
 		}
